@@ -59,4 +59,8 @@ Class ToTuple (A : Type) := totuple : A -> list val.
 Definition bad_cases (cs : list (nat * val * val)) : list nat :=
   map (fun c => fst (fst c))
       (filter (fun c => negb (val_eqb (snd (fst c)) (snd c))) cs).
+(* same with binary indices (unary nat literals get slow above a few thousand cases) *)
+Definition bad_casesZ (cs : list (Z * val * val)) : list Z :=
+  map (fun c => fst (fst c))
+      (filter (fun c => negb (val_eqb (snd (fst c)) (snd c))) cs).
 Definition FUEL : nat := 4000%nat.
